@@ -22,13 +22,13 @@ from vector._methods import _coordinate_order
 PID = "C06"
 EXPLANATION = (
     "path-exhaustive symbolic execution of the real constructors over name sets: presence booleans for the 19 recognised coordinate names plus one "
-    "foreign name (at most 4 true in the quick tier, 5 in the thorough tier); each feasible path of vector.obj, VectorObject2D/3D/4D, "
+    "foreign name (at most 5 true; 6 for vector.obj in the thorough tier); each feasible path of vector.obj, VectorObject2D/3D/4D, "
     "MomentumObject2D/3D/4D, vector.array and awkward_constructors._check_names is executed with symbolic values and z3 decides that the outcome "
     "(accept/reject, dimension, flavor, coordinate classes, which supplied value is stored where) equals the documented grammar encoded as a z3 "
     "formula over the presence booleans; value kinds (int, float, numpy scalars accepted; bool, str, None, complex rejected) are a second, "
     "enumerated dimension"
 )
-BOUNDS = {"names": "subsets of at most 4 (quick) / 5 (thorough) of 20 names; two keyword orders", "outside": "ak.zip / vector.Array / vector.zip beyond _check_names (Awkward C++ layouts)"}
+BOUNDS = {"names": "subsets of at most 5 of 20 names (6 for vector.obj in the thorough tier); two keyword orders for the class constructors (all constructors in the thorough tier)", "outside": "ak.zip / vector.Array / vector.zip beyond _check_names (Awkward C++ layouts)"}
 TRUSTED = ["z3 5.1.0 (propositional + pseudo-boolean)", "the documented grammar encoded in props/c06.py::Spec"]
 
 UNIVERSE = list(_coordinate_order) + ["charge"]
@@ -338,8 +338,10 @@ FUNCS = {
 
 def families(tier="quick"):
     fams = []
-    bound = 5 if tier == "thorough" else 4
     for t in TARGETS:
+        bound = 5
+        if tier == "thorough" and t == "obj":
+            bound = 6
         funcs = FUNCS.get(t, [f"vector.backends.object.{t}.__init__", "vector.backends.object._is_type_safe"])
         for i in range(len(UNIVERSE)):
             for rev in (False, True):
